@@ -489,6 +489,40 @@ func (vc *FnVC) resolveLocal(e *Env, name string) (*Val, error) {
 			}
 		}
 	}
+	if !e.bodyLocals && at != nil && (best == nil || !best.addr) {
+		// a merge of the variable after an if/else before this point (go/ssa phi named after it) is a later
+		// definition than any debug reference that dominates it
+		for _, b := range vc.fn.Blocks {
+			if b == at || !b.Dominates(at) || (e.loop != nil && e.loop.blocks[b]) {
+				continue
+			}
+			for _, in := range b.Instrs {
+				phi, ok := in.(*ssa.Phi)
+				if !ok {
+					break
+				}
+				if phiAlias(phi.Comment) != name {
+					continue
+				}
+				if _, done := vc.vals[phi]; !done {
+					continue
+				}
+				if best == nil {
+					best = &debugBinding{block: b, idx: -1, val: phi}
+					continue
+				}
+				bdef := best.block
+				if vi, ok := best.val.(ssa.Instruction); ok && vi.Block() != nil {
+					bdef = vi.Block()
+				}
+				// the merge is later than `best` when best's value was defined before the merge and best was not
+				// referenced after it
+				if bdef != b && bdef.Dominates(b) && !(b.Dominates(best.block)) {
+					best = &debugBinding{block: b, idx: -1, val: phi}
+				}
+			}
+		}
+	}
 	if os.Getenv("GOVC_DEBUG_RESOLVE") == name && best != nil {
 		fmt.Fprintf(os.Stderr, "resolve %s at %v (cur block %v): best=%s addr=%v block=%d idx=%d\n", name, vc.curInstr, vc.curBlock, best.val.Name(), best.addr, best.block.Index, best.idx)
 	}
@@ -1084,6 +1118,17 @@ func (vc *FnVC) evalCall(env *Env, c ECall) (*Val, error) {
 			return nil, err
 		}
 		return &Val{T: tInt, S: args[0].S}, nil
+	case "deref": // deref(p): the value a pointer to a scalar points to (*p), in the state of the enclosing expression
+		if err := evalArgs(); err != nil {
+			return nil, err
+		}
+		if len(args) != 1 {
+			return nil, fmt.Errorf("deref(p)")
+		}
+		if _, ok := args[0].T.Underlying().(*types.Pointer); !ok {
+			return nil, fmt.Errorf("deref of non-pointer %s", c.Args[0])
+		}
+		return vc.load(env.st, args[0]), nil
 	case "fresh": // fresh(p): p was allocated during the call
 		if err := evalArgs(); err != nil {
 			return nil, err
